@@ -1,2 +1,5 @@
 import BufrProps.C09
-#print axioms Bufr.C09.C09_201_operand
+#print axioms Bufr.C09.C09_layout
+#print axioms Bufr.C09.C09_class31_untouched
+#print axioms Bufr.C09.C09_edition_gate
+#print axioms Bufr.C09.C09_skipped_operator_inert
